@@ -329,6 +329,11 @@ class Impl:
             return "ok"
         if c in ("sv.oracle", "sv.local"):
             return "ok"
+        if c == "sv.setparams":
+            # the parameters object shared by Solver / Method / Process is changed in place
+            self.sv.parameters.itersLimit = int(t[1])
+            self.sv.parameters.eps = h2f(t[2])
+            return "ok"
         if c == "sv.iter":
             raised = "-"
             out = _Stdout(self.events)
